@@ -2486,7 +2486,9 @@ protected:
             XPathExecutionContext&  executionContext,
             XalanNode*              context, 
             OpCodeMapPositionType   opPos,
-            eMatchScore&            scoreHolder) const;
+            eMatchScore&            scoreHolder,
+            OpCodeMapPositionType   patternStartPos,
+            OpCodeMapPositionType   stopPos) const;
 
     OpCodeMapPositionType
     findNodeSet(
